@@ -5548,9 +5548,27 @@ namespace detail {
                     output_stack.push_back(std::move(tok));
                     break;
                 case token_kind::key:
-                case token_kind::pipe:
                     output_stack.push_back(std::move(tok));
                     break;
+                case token_kind::pipe:
+                {
+                    // The pipe binds weakest: it ends every operator that is pending at this parenthesis level
+                    auto it = operator_stack_.rbegin();
+                    while (it != operator_stack_.rend() && !(*it).is_lparen())
+                    {
+                        if ((*it).is_operator()) 
+                        {
+                            auto rhs = unwind_roperator(output_stack, *it);
+                            JSONCONS_ASSERT(!rhs.empty());
+                            (*it).expression_->add_expression(resources.create_expression(function_expression(std::move(rhs))));
+                        }
+                        output_stack.push_back(std::move(*it));
+                        ++it;
+                    }
+                    operator_stack_.erase(it.base(), operator_stack_.end());
+                    output_stack.push_back(std::move(tok));
+                    break;
+                }
                 case token_kind::argument:
                     unwind_rparen(resources, output_stack, ec);
                     output_stack.push_back(std::move(tok));
